@@ -48,7 +48,7 @@ impl Root {
 
 /// Spelling of a rectangle handed to slice()/slice_mut().
 #[derive(Clone, Copy, Debug, PartialEq, Eq, Hash)]
-enum Form { Ranges, Inclusive, To, From, Full, VecRange, RangeFull, RectLit, BoundsExIn, BoundsExEx, BoundsInUn, BoundsUnEx, ToInclusive, MixedFromTo, MixedToFrom }
+enum Form { Ranges, Inclusive, To, From, Full, VecRange, RangeFull, RectLit, BoundsExIn, BoundsExEx, BoundsInUn, BoundsUnEx, ToInclusive, MixedFromTo, MixedToFrom, /** (l..=u32::MAX, t..b): the end is one past u32::MAX */ InclusiveMaxX, /** (l..r, Excluded(u32::MAX)..): the start is one past u32::MAX */ ExcludedMaxY }
 
 #[derive(Clone, Copy, Debug, PartialEq, Eq, Hash)]
 enum Step {
@@ -73,6 +73,8 @@ fn make_rect(l: u32, t: u32, r: u32, b: u32, form: Form) -> Rect<u32> {
         Form::MixedFromTo => (l.., ..b).into(),
         Form::MixedToFrom => (..r, t..).into(),
         Form::RectLit => Rect { left: Some(l), top: Some(t), right: Some(r), bottom: Some(b) },
+        Form::InclusiveMaxX => (l..=u32::MAX, t..b).into(),
+        Form::ExcludedMaxY => (l..r, (Bound::Excluded(u32::MAX), Bound::Unbounded)).into(),
     }
 }
 
@@ -332,6 +334,8 @@ fn recipes(g0: Geo, all_forms_first: bool, oob: bool) -> Vec<(Vec<Step>, Option<
         let g1 = slice_geo(g0, l, t, r, b);
         // (rectangles that must be rejected - inverted or out of bounds - are also spelled in every form that can express them)
         let forms = if all_forms_first { if g1.is_some() { forms_for(l, t, r, b, g0.w, g0.h) } else { vec![Form::Ranges, Form::VecRange, Form::RectLit] } } else { vec![Form::Ranges] };
+        // two spellings that are out of bounds whatever the view: an inclusive end of u32::MAX, an excluded start of u32::MAX
+        if all_forms_first && g1.is_some() && l == 0 && t == 0 { out.push((vec![Step::Slice { l, t, r, b, form: Form::InclusiveMaxX }], None)); out.push((vec![Step::Slice { l, t, r, b, form: Form::ExcludedMaxY }], None)); }
         for form in forms {
             let s1 = Step::Slice { l, t, r, b, form };
             out.push((vec![s1], g1));
@@ -524,6 +528,8 @@ fn check_outcome(oc: Outcome, geo: &Option<Geo>, cx: &mut Ctx, steps: &[Step], g
         (Outcome::Done, Some(_)) => {}
         (Outcome::Done, None) => cx.viol("slice-oob-accepted", which.into(), format!("{which} with out-of-bounds rectangle did not panic")),
         (Outcome::StepPanicked(d, p), _) if d == usize::MAX - 1 => { cx.viol("reborrow-panics", which.into(), format!("{which}: re-borrowing a valid view panicked: {p}")); }
+        // (a recipe whose last step is one of the always-out-of-bounds spellings is expected to panic there)
+        (Outcome::StepPanicked(d, _), None) if d + 1 == steps.len() && matches!(steps.last(), Some(Step::Slice { form: Form::InclusiveMaxX | Form::ExcludedMaxY, .. })) => { cx.rep.h("oob-slice-panics"); }
         (Outcome::StepPanicked(d, p), _) => {
             let (zero, valid) = zero_upto(d);
             if !valid { cx.rep.h("oob-slice-panics"); }
@@ -649,6 +655,16 @@ fn main() {
         }
         if a { rep.h("direct-accepted"); init.push(State { root, contents: data }); }
         else if can_hold { rep.h("direct-rejected-though-holdable(allowed)"); } else { rep.h("direct-rejected"); }
+    }
+    // dimensions whose required size exceeds the data by orders of magnitude - up to and beyond 2^32 cells - must be
+    // rejected too (the size computation may not wrap or be skipped)
+    for (w, h, stride, len) in [(1u32, 65537u32, 65536u32, 65536usize), (2, 65536, 65536, 100), (65536, 65537, 65536, 65536), (1, u32::MAX, 1, 10), (u32::MAX, 2, u32::MAX, 1000), (3, 1431655766, 3, 30), (16, 268435457, 16, 64), (1, 3, 2147483648, 8), (5, 1, 5, 4)] {
+        rep.eval();
+        let data: Vec<i32> = (1..=len as i32).collect();
+        let mut d2 = data.clone();
+        let need = (h as u128 - 1) * stride as u128 + w as u128;
+        let (a, b) = (caught(|| { Slice2::new((w, h), stride, &data[..]); }).is_ok(), caught(|| { MutSlice2::new((w, h), stride, &mut d2[..]); }).is_ok());
+        if (a || b) && need > len as u128 { rep.violation(format!("ctor-accepts-too-small|Direct {w}x{h} stride={stride} len={len}"), format!("a view of {w}x{h} with stride {stride} needs {need} elements but was constructed over {len} (Slice2 accepted={a}, MutSlice2 accepted={b})"), obj! {"root" => format!("Direct {w}x{h} stride={stride} len={len}"), "contents" => "[]", "recipe" => Vec::<String>::new(), "clause" => "ctor-accepts-too-small", "detail" => ""}); } else { rep.h("huge-direct-rejected"); }
     }
     for w in 0..=maxd { for h in 0..=maxd { check_ctors(w, h, &mut rep); } }
     // BFS by levels; each level expanded in parallel
